@@ -1026,8 +1026,12 @@ pub fn pow<E: Copy, T: FastPow<E>>(
     base: TensorView<T>,
     exp: TensorView<E>,
 ) -> Result<Tensor<T>, OpError> {
-    if let Some(&exp) = exp.item() {
-        Ok(base.map_in(pool, |x| x.fast_pow(exp)))
+    // The scalar fast path produces an output with the base's shape, which is
+    // only the broadcast shape if the exponent has no more dims than the base.
+    if let Some(&exp_val) = exp.item()
+        && exp.ndim() <= base.ndim()
+    {
+        Ok(base.map_in(pool, |x| x.fast_pow(exp_val)))
     } else {
         binary_op(pool, base, exp, &|b: T, e: E| b.fast_pow(e))
     }
